@@ -62,10 +62,14 @@ def chunk_random(s, rng, mean=None):
 
 
 # ---- line protocol -----------------------------------------------------------------------------------
-def make_line(mode, cap, align, ops):
-    """ops: list of ('D', bytes) | ('R',) | ('B', mode, cap, align).  cap may be int or 'claimed/real'."""
-    toks = []
+def make_line(mode, cap, align, ops, opts=0, for_model=False):
+    """ops: list of ('D', bytes) | ('R',) | ('B', mode, cap, align).  cap may be int or 'claimed/real'.
+    opts (implementation harness only): 1 WarnOnError(true), 2 std::function callback, 4 callback calls Reset().
+    B mode 'S' = SetBuffer again on the same user memory (for the model: a user buffer at the same alignment)."""
+    toks = ['O%d' % opts] if (opts and not for_model) else []
     for o in ops:
+        if o[0] == 'B' and for_model and o[1] == 'S':
+            o = ('B', 'U') + tuple(o[2:])
         if o[0] == 'D':
             toks.append('D' + bytes(o[1]).hex())
         elif o[0] == 'R':
@@ -79,7 +83,7 @@ def spec_line(mode, cap, align, ops):
     def claimed(c):
         return str(c).split('/')[0]
     ops2 = [o if o[0] != 'B' else ('B', o[1], claimed(o[2]), o[3]) for o in ops]
-    return 'SPEC ' + make_line(mode, claimed(cap), align, ops2)
+    return 'SPEC ' + make_line(mode, claimed(cap), align, ops2, for_model=True)
 
 
 def parse_cbs(s):
@@ -119,12 +123,18 @@ def classify(isegs, ssegs, with_count=True):
     for k, (a, b) in enumerate(zip(isegs, ssegs)):
         if a['kind'] == 'D' and a.get('flag') == 'ASAN':
             return k, 'sanitizer-report'
+        if a['kind'] == 'D' and a.get('flag') == 'INMOD':
+            return k, 'caller-data-modified'
         if a['kind'] != 'D':
             continue
         if public(a, with_count) == public(b, with_count):
             continue
         ia = [(n, h) for n, h, _ in a['cbs']]; sb = [(n, h) for n, h, _ in b['cbs']]
         if ia == sb:
+            if any(pm & 16 for _, _, pm in a['cbs']):
+                return k, 'callback-pointer-outside-framer-buffer'
+            if any(pm & 12 for _, _, pm in a['cbs']):
+                return k, 'payload-pointer-not-header-plus-24'
             if any(pm != 0 for _, _, pm in a['cbs']):
                 return k, 'misaligned-callback'
             if a['ret'] != b['ret']:
@@ -185,12 +195,14 @@ def case_ops(case):
     bounds = [0] + cuts + [len(s)]
     ops = []
     resets = set(case.get('resets', []))
-    setbufs = dict((k, v) for k, v in case.get('setbufs', []))
+    setbufs = {}
+    for k, v in case.get('setbufs', []):
+        setbufs.setdefault(k, []).append(v)
     for i in range(len(bounds) - 1):
         if i in resets:
             ops.append(('R',))
-        if i in setbufs:
-            ops.append(('B',) + tuple(setbufs[i]))
+        for v in setbufs.get(i, []):
+            ops.append(('B',) + tuple(v))
         ops.append(('D', s[bounds[i]:bounds[i + 1]]))
     return ops
 
@@ -199,4 +211,49 @@ def cuts_of(chunks):
     out, k = [], 0
     for c in chunks[:-1]:
         k += len(c); out.append(k)
+    return out
+
+
+def token_cuts(tokens, rng, around=(-2, -1, 0, 1, 2)):
+    """chunk boundaries at and around the token boundaries (a call that ends on / just before / just after the end of a token)"""
+    out, k = [], 0
+    total = sum(len(t) for t in tokens)
+    for t in tokens[:-1]:
+        k += len(t)
+        d = rng.choice(around)
+        if 0 < k + d < total:
+            out.append(k + d)
+    return sorted(out)
+
+
+def gen_setbufs(rng, nchunks, mode, cap, align, caps, min_cap):
+    """SetBuffer() calls between chunks: same memory again, smaller, larger, user <-> managed, too small (refused)"""
+    out = []
+    cur = (mode, cap, align)
+    last_user = (cap, align) if mode == 'U' and isinstance(cap, int) else None     # the harness re-uses the last user block
+    for idx in sorted(rng.randrange(nchunks) for _ in range(rng.choice([1, 1, 2, 3]))):
+        v = rng.choice(['same', 'same', 'smaller', 'larger', 'swap', 'refused', 'any'])
+        m, c, a = cur
+        if not isinstance(c, int):
+            c = 64
+        if v == 'same' and last_user is not None:
+            lc, la = last_user
+            nb = ('S', rng.choice([lc, lc, max(0, lc - rng.randint(0, 5))]), la)
+        elif v == 'smaller':
+            nb = (m, max(0, c - rng.choice([1, 2, 3, 4, 8, c // 2 + 1])), rng.randrange(4) if m == 'U' else 0)
+        elif v == 'larger':
+            nb = (m, c + rng.choice([1, 2, 3, 4, 64, 1000]), rng.randrange(4) if m == 'U' else 0)
+        elif v == 'swap':
+            m2 = 'M' if m == 'U' else 'U'
+            nb = (m2, rng.choice(caps), rng.randrange(4) if m2 == 'U' else 0)
+        elif v == 'refused':
+            nb = (rng.choice(['U', 'M']), rng.randrange(0, min_cap), 0)
+        else:
+            m2 = rng.choice(['U', 'M'])
+            nb = (m2, rng.choice(caps), rng.randrange(4) if m2 == 'U' else 0)
+        if nb[0] == 'U':
+            last_user = (nb[1], nb[2])
+        if nb[1] >= min_cap:
+            cur = ('U' if nb[0] == 'S' else nb[0], nb[1], nb[2])
+        out.append((idx, nb))
     return out
